@@ -218,7 +218,7 @@ def check(tier, seed, replay=None):
     # part 2
     pevents = core.rv_parallel("twins", pairs, prop + "-p", procs=8) if pairs else []
     for e in pevents:
-        if e.get("out") == "ok":
+        if e.get("out") == "ok" and e.get("lm"):
             lin.annotate(e, tier)
         else:
             e.setdefault("g", 1)
